@@ -647,7 +647,7 @@ class Body:
         alts = [self._origin_of_def(site, s, depth + 1) for site, s in defs]
         if len(alts) == 1:
             return alts[0]
-        return Origin('multi', alts=alts, name=self.local_name(l), local=l)
+        return Origin('multi', alts=alts, name=self.local_name(l), local=l, user=self.locals[l]['user'])
 
     def _origin_of_def(self, site, s, depth):
         if s.get('s') == 'assign':
